@@ -33,6 +33,13 @@ def run(tier, seed):
         if not il.startswith("OK") and il not in LIB_OK:
             chk.violation(f"credential JSON refused with a non-library / unexpected exception: {il}",
                           f"{kind}-parser-raises {il} {sig_of(val)}", rp)
+        if il.startswith("OK"):
+            try:
+                top = json.loads(val) if as_text else val
+            except Exception:
+                top = None
+            if not isinstance(top, dict):
+                chk.violation("a JSON value that is not an object was accepted as a credential", f"{kind}-non-object-accepted {type(top).__name__}", rp)
         if wellformed is not None and il != "OK " + wellformed:
             chk.violation("well-formed credential not decoded faithfully", f"{kind}-unfaithful", dict(rp, expected="OK " + wellformed))
         if R:
@@ -112,6 +119,10 @@ def run(tier, seed):
             one(kind, json.dumps(v))
             if isinstance(v, dict):
                 one(kind, v)
+        # a JSON *string* whose content is itself the JSON text of a credential is not an object
+        for t in [json.dumps(json.dumps(base)), json.dumps(json.dumps(json.dumps(base))), json.dumps([base]), json.dumps(" " + json.dumps(base)),
+                  json.dumps("{}"), " " + json.dumps(base) + "\n"]:
+            one(kind, t)
         for t in ["", "{", "[1,", "nul", '{"id":}', "é", '{"id": "\ud800"}'.encode("utf-8", "surrogatepass").decode("utf-8", "surrogatepass") if False else '{"a":1}x']:
             one(kind, t)
     for i in range(400 if quick else 20000):
@@ -143,6 +154,9 @@ def run(tier, seed):
         typ = rng.choice(["webauthn.get", "webauthn.create", "x", ""])
         ch = rng.randbytes(rng.choice([0, 1, 16, 32, 64]))
         org = rng.choice(["https://example.com", "", "https://bücher.example", "android:apk-key-hash:x"])
+        if rng.random() < 0.5:      # exactly the member's text: no trimming, case folding or normalisation of any kind
+            org = rng.choice(["", " ", "/", "\t"]) + org + "".join(rng.choice("/ .:#?%A\u00e9\t\n\\\"'") for _ in range(rng.randrange(1, 4)))
+            typ = typ + rng.choice(["", " ", "/", "\u0000", "GET"])
         extra = rng.choice([{}, {"crossOrigin": True}, {"zzz": [1, 2, {"a": None}], "aaa": 0.5}, {"tokenBinding": {"status": "supported", "id": "x"}},
                             {"tokenBinding": "string"}, {"tokenBinding": {"status": "weird"}}, {"tokenBinding": {"status": 5}}])
         d = {"type": typ, "challenge": authsim.b64u(ch), "origin": org}
